@@ -126,10 +126,38 @@ pub open spec fn entry_key_fn<'a>() -> spec_fn(RefMulti<'a, PathBuf, Arc<String>
 pub open spec fn roots(s: Seq<EditableInstall>) -> Seq<PV> { s.map_values(|e: EditableInstall| pbv(&e.source_root)) }
 pub open spec fn set_of(s: Seq<PathBuf>) -> Set<PV> { pbvs(s).to_set() }
 
-/// a discovered module: `src[m]` is a processed file one of whose imports resolved to m while m was not cached
-pub open spec fn src_ok(snap: Map<PV, Snap>, src: Map<PV, PV>, m: PV) -> bool {
-    src.contains_key(m) && snap.contains_key(src[m]) && any_edge(env_of(snap[src[m]].cache), src[m], m)
-    && !snap[src[m]].cache.contains_key(m) && canon(m) == m
+/// a queued module: `src[m].by` is an examined file one of whose imports resolved to m while file_cache was src[m].cache
+pub open spec fn src_ok(snap: Map<PV, Snap>, src: Map<PV, Src>, m: PV) -> bool {
+    src.contains_key(m) && snap.contains_key(src[m].by) && any_edge(env_of(src[m].cache), src[m].by, m) && canon(m) == m
+}
+/// the index already has entries for the file (what the analysis loop tests before choosing analyze_file / _fresh)
+pub open spec fn has_entries(idx: Idx, m: PV) -> bool {
+    idx.file_definitions.m().contains_key(m) || idx.usages.m().contains_key(m)
+}
+/// every discovery analysis cleans up exactly when the index had entries for the file at that moment
+#[verifier::opaque]
+pub open spec fn cleanup_ok(i0: Idx, k: Consts, tr: Seq<AStep>, n: int) -> bool {
+    forall|i: int| 0 <= i < n && i < tr.len() ==> (#[trigger] tr[i]).cleanup == has_entries(replay(i0, k, tr.take(i)), tr[i].f)
+}
+pub proof fn lemma_cleanup_push(i0: Idx, k: Consts, tr: Seq<AStep>, s: AStep)
+    requires cleanup_ok(i0, k, tr, tr.len() as int), s.cleanup == has_entries(replay(i0, k, tr), s.f)
+    ensures cleanup_ok(i0, k, tr.push(s), (tr.len() + 1) as int)
+{
+    reveal(cleanup_ok);
+    let t2 = tr.push(s);
+    assert forall|i: int| 0 <= i < t2.len() implies (#[trigger] t2[i]).cleanup == has_entries(replay(i0, k, t2.take(i)), t2[i].f) by {
+        if i < tr.len() { assert(t2.take(i) =~= tr.take(i)); } else { assert(t2.take(i) =~= tr); }
+    }
+}
+pub proof fn lemma_cleanup_ext(i0: Idx, k: Consts, tr: Seq<AStep>, n: int, tr2: Seq<AStep>)
+    requires cleanup_ok(i0, k, tr, n), 0 <= n <= tr.len(), n <= tr2.len(), tr2.take(n) == tr.take(n)
+    ensures cleanup_ok(i0, k, tr2, n)
+{
+    reveal(cleanup_ok);
+    assert forall|i: int| 0 <= i < n && i < tr2.len() implies (#[trigger] tr2[i]).cleanup == has_entries(replay(i0, k, tr2.take(i)), tr2[i].f) by {
+        assert(tr2.take(n)[i] == tr2[i]); assert(tr.take(n)[i] == tr[i]);
+        assert(tr2.take(i) =~= tr2.take(n).take(i)); assert(tr.take(i) =~= tr.take(n).take(i));
+    }
 }
 /// a re-analysis step: analyze_file (with cleanup) of a module that was cached when it was marked, on the text
 /// get_file_content returns, with ALL plugin marks of the run in place
@@ -175,24 +203,28 @@ impl FixtureDatabase {
         &&& forall|x: PV| #[trigger] h.why.contains_key(x) ==> mark_ok(h.snap, h.why[x], x)
         &&& forall|g: PV| #[trigger] h.snap.contains_key(g) ==> o.plugins().subset_of(h.snap[g].plugins) && h.snap[g].plugins.subset_of(f.plugins())
         &&& forall|g: PV, x: PV| h.snap.contains_key(g) && h.snap[g].plugins.contains(g) && #[trigger] edge(env_of(h.snap[g].cache), g, x) ==> f.plugins().contains(x)
+        // since commit 402a101: an examined file that ends up a plugin file was (last) examined AS a plugin file
+        &&& forall|g: PV| #[trigger] h.snap.contains_key(g) && f.plugins().contains(g) ==> h.snap[g].plugins.contains(g)
     }
     /// (D) discovery: the start set is processed; the import targets of a processed file are processed or were cached
     /// when it was processed; a processed file was cached at the start, or was analysed, or does not exist / cannot be
     /// read; nothing else is processed
     pub open spec fn post_D(o: &FixtureDatabase, f: &FixtureDatabase, h: Hist) -> bool {
         &&& forall|k: PV| o.initial(k) ==> #[trigger] h.snap.contains_key(k)
-        &&& forall|g: PV, x: PV| h.snap.contains_key(g) && #[trigger] any_edge(env_of(h.snap[g].cache), g, x) ==> h.snap.contains_key(x) || h.snap[g].cache.contains_key(x)
+        &&& forall|g: PV, x: PV| h.snap.contains_key(g) && #[trigger] any_edge(env_of(h.snap[g].cache), g, x) ==> h.snap.contains_key(x)
         &&& forall|m: PV| #[trigger] h.snap.contains_key(m) ==> handled(o.cache(), h.tr, h.nfresh, m)
         &&& forall|m: PV| #[trigger] h.snap.contains_key(m) ==> o.initial(m) || src_ok(h.snap, h.src, m)
         &&& h.snap.dom().subset_of(scan_universe())
-        &&& forall|g: PV, x: PV| h.snap.contains_key(g) && #[trigger] h.snap[g].cache.contains_key(x) ==> o.cache().contains_key(x) || has_fresh(h.tr, h.nfresh, x)
+        &&& forall|g: PV, x: PV| h.snap.contains_key(g) && #[trigger] h.snap[g].cache.contains_key(x) ==> o.cache().contains_key(x) || has_disc(h.tr, h.nfresh, x)
     }
     /// (R) analyses: first analyze_file_fresh of discovered modules (each not cached when its turn came, text read from
     /// disk), then analyze_file of exactly the readable modules that were cached when they were marked, each once
     pub open spec fn post_R(o: &FixtureDatabase, f: &FixtureDatabase, h: Hist) -> bool {
         &&& 0 <= h.nfresh <= h.tr.len()
-        &&& forall|i: int| 0 <= i < h.nfresh ==> fresh_step_ok(#[trigger] h.tr[i]) && h.snap.contains_key(h.tr[i].f)
+        &&& forall|i: int| 0 <= i < h.nfresh ==> disc_step_ok(#[trigger] h.tr[i]) && h.snap.contains_key(h.tr[i].f)
                 && o.plugins().subset_of(h.tr[i].plugins) && h.tr[i].plugins.subset_of(f.plugins())
+        // analyze_file (cleanup) iff the index had entries for the module, else analyze_file_fresh (commit e159908)
+        &&& cleanup_ok(o.idx(), o.consts(), h.tr, h.nfresh)
         &&& rean_final(h.why, h.tr, h.nfresh, f.cache(), f.plugins())
     }
     pub open spec fn hist_post(o: &FixtureDatabase, f: &FixtureDatabase, h: Hist) -> bool {
@@ -200,17 +232,19 @@ impl FixtureDatabase {
     }
 
     /// loop invariant shared by all loops of the scan
-    pub open spec fn ginv(&self, o: &FixtureDatabase, pset: Set<PV>, queued: Set<PV>, snap: Map<PV, Snap>, why: Map<PV, Mark>, src: Map<PV, PV>,
+    pub open spec fn ginv(&self, o: &FixtureDatabase, pset: Set<PV>, queued: Set<PV>, snap: Map<PV, Snap>, why: Map<PV, Mark>, src: Map<PV, Src>,
                           tr: Seq<AStep>, ra: Set<PV>, cur: Option<PV>) -> bool {
         &&& self.consts() == o.consts()
         &&& pset.subset_of(queued) && queued.subset_of(scan_universe())
-        &&& snap.dom() == pset
+        &&& pset.subset_of(snap.dom()) && snap.dom().subset_of(queued)
         &&& snap_ok(snap, o.plugins(), self.plugins())
-        &&& why_ok(snap, why, o.plugins(), self.plugins())
+        &&& why_ok(snap, why, o.plugins(), self.plugins(), pset)
+        &&& asp_ok(snap, pset, self.plugins())
+        &&& cleanup_ok(o.idx(), o.consts(), tr, tr.len() as int)
         &&& done_ok(snap, self.plugins(), queued, cur)
         &&& ra == rean_set(why)
         &&& chain_ok(o.cache(), tr, self.cache())
-        &&& fresh_ok(tr, queued, o.plugins(), self.plugins())
+        &&& disc_ok(tr, queued, o.plugins(), self.plugins())
         &&& self.idx() == replay(o.idx(), o.consts(), tr)
         &&& cache_src(o.cache(), tr, self.cache()) && snapc_ok(snap, o.cache(), tr)
         &&& forall|k: PV| o.initial(k) ==> #[trigger] queued.contains(k)
@@ -280,20 +314,21 @@ impl FixtureDatabase {
 @closure any:1 |sp: &PathBuf| -> (b: bool) ensures b == pv_is_prefix(pbv(sp), pbv(key))
 @closure any:2 |er: &PathBuf| -> (b: bool) ensures b == pv_is_prefix(pbv(er), pbv(key))
 @closure map:3 |entry: RefMulti<'_, PathBuf, Arc<String>>| -> (p: PathBuf) ensures pbv(&p) == pbv(entry.k)
+@rename chain vp_chain
 @nocontinue 2
 @sig
     requires
         // FINITE-UNIVERSE ASSUMPTION, part 1: the keys of file_cache lie in scan_universe()
         old(self).cache().dom().subset_of(scan_universe()),
-        // C11: `iteration` is an i32 counter; it stays below the number of paths in the universe
-        scan_universe().len() < 0x7fff_ffff,
+        // C11: `iteration` is an i32 counter; it stays below 3 * (number of paths in the universe)
+        3 * scan_universe().len() < 0x7fff_ffff,
     ensures
         exists|h: Hist| Self::hist_post(old(self), final(self), h),
 @start
     let ghost uni = scan_universe();
     let ghost mut snap: Map<PV, Snap> = Map::empty();
     let ghost mut why: Map<PV, Mark> = Map::empty();
-    let ghost mut src: Map<PV, PV> = Map::empty();
+    let ghost mut src: Map<PV, Src> = Map::empty();
     let ghost mut tr: Seq<AStep> = Seq::empty();
     let ghost mut queued: Set<PV> = Set::empty();
 @after is_venv_plugin 1
@@ -331,37 +366,39 @@ impl FixtureDatabase {
     assert(Self::post_frame(old(self), self, h)) by { assert(self.plugins() =~= old(self).plugins().union(why.dom())); }
     assert(Self::post_P(old(self), self, h));
     assert(Self::post_D(old(self), self, h));
-    assert(Self::post_R(old(self), self, h));
+    assert(Self::post_R(old(self), self, h)) by { reveal(cleanup_ok); }
     assert(Self::hist_post(old(self), self, h));
 @before files_to_check 4
-    let ghost mut m0: nat = todo(uni, processed_files.s());
+    let ghost mut m0: nat = scan_measure(uni, self.plugins(), processed_files.s());
     proof {
         assert(snap.dom() =~= processed_files.s());
         assert(self.plugins() =~= old(self).plugins().union(why.dom()));
         assert(done_ok(snap, self.plugins(), queued, None)) by { reveal(done_ok); }
         assert(snap_ok(snap, old(self).plugins(), self.plugins())) by { reveal(snap_ok); }
-        assert(why_ok(snap, why, old(self).plugins(), self.plugins())) by { reveal(why_ok); }
+        assert(why_ok(snap, why, old(self).plugins(), self.plugins(), processed_files.s())) by { reveal(why_ok); }
+        assert(asp_ok(snap, processed_files.s(), self.plugins())) by { reveal(asp_ok); }
+        assert(cleanup_ok(old(self).idx(), old(self).consts(), tr, tr.len() as int)) by { reveal(cleanup_ok); }
         assert(reanalyze_as_plugin.s() =~= rean_set(why));
-        assert(fresh_ok(tr, queued, old(self).plugins(), self.plugins())) by { reveal(fresh_ok); }
+        assert(disc_ok(tr, queued, old(self).plugins(), self.plugins())) by { reveal(disc_ok); }
         assert(handled_ok(old(self).cache(), tr, queued, Set::<PV>::empty())) by { reveal(handled_ok); }
         assert(cache_src(old(self).cache(), tr, self.cache())) by { reveal(cache_src); }
         assert(snapc_ok(snap, old(self).cache(), tr)) by { reveal(snapc_ok); }
-        lemma_todo_le(uni, processed_files.s());
+        lemma_todo_le(uni, processed_files.s()); lemma_todo_le(uni, self.plugins());
     }
 @loop 1
     invariant_except_break
-        iteration as int + todo(uni, processed_files.s()) <= uni.len(),
+        iteration as int + scan_measure(uni, self.plugins(), processed_files.s()) <= 3 * uni.len(),
     invariant
-        uni == scan_universe(), uni.len() < 0x7fff_ffff,
+        uni == scan_universe(), 3 * uni.len() < 0x7fff_ffff,
         self.ginv(old(self), processed_files.s(), queued, snap, why, src, tr, reanalyze_as_plugin.s(), None),
         handled_ok(old(self).cache(), tr, queued, Set::<PV>::empty()),
         set_of(files_to_check@).subset_of(queued), queued.subset_of(processed_files.s().union(set_of(files_to_check@))),
         0 <= iteration as int,
     ensures
         queued =~= processed_files.s(),
-    decreases todo(uni, processed_files.s()),
+    decreases scan_measure(uni, self.plugins(), processed_files.s()),
 @loopstart 1
-    proof { m0 = todo(uni, processed_files.s()); }
+    proof { m0 = scan_measure(uni, self.plugins(), processed_files.s()); }
     let ghost c_it = self.cache();
 @loopvar 2 it2
 @loop 2
@@ -369,11 +406,12 @@ impl FixtureDatabase {
         uni == scan_universe(), c_it == self.cache(), it2.seq() == files_to_check@.as_ref(),
         self.ginv(old(self), processed_files.s(), queued, snap, why, src, tr, reanalyze_as_plugin.s(), None),
         handled_ok(old(self).cache(), tr, queued, new_modules.s()),
-        set_of(files_to_check@).subset_of(queued), new_modules.s().subset_of(queued),
-        queued.subset_of(processed_files.s().union(set_of(files_to_check@)).union(new_modules.s())),
+        set_of(files_to_check@).subset_of(queued), new_modules.s().subset_of(queued), already_cached.s().subset_of(queued),
+        queued.subset_of(processed_files.s().union(set_of(files_to_check@)).union(new_modules.s()).union(already_cached.s())),
         forall|m: PV| #[trigger] new_modules.s().contains(m) ==> canon(m) == m && !c_it.contains_key(m),
-        forall|j: int| 0 <= j < it2.index@ ==> processed_files.s().contains(pbv(&#[trigger] files_to_check@[j])),
-        todo(uni, processed_files.s()) <= m0, new_modules.s().len() > 0 ==> todo(uni, processed_files.s()) < m0,
+        forall|j: int| 0 <= j < it2.index@ ==> (processed_files.s().contains(pbv(&#[trigger] files_to_check@[j])) || new_modules.s().contains(pbv(&files_to_check@[j])) || already_cached.s().contains(pbv(&files_to_check@[j]))),
+        scan_measure(uni, self.plugins(), processed_files.s()) <= m0,
+        new_modules.s().len() > 0 || already_cached.s().len() > 0 ==> scan_measure(uni, self.plugins(), processed_files.s()) < m0,
 @loopstart 2
     let ghost cur = pbv(file_path);
     let ghost i2 = it2.index@ as int;
@@ -387,14 +425,13 @@ impl FixtureDatabase {
     let ghost sc = Snap { cache: self.cache(), plugins: self.plugins() };
     let ghost env = env_of(c_it);
     proof {
-        assert(!snap.contains_key(cur));
-        lemma_why_pl(snap, why, old(self).plugins(), self.plugins());
+        lemma_why_pl(snap, why, old(self).plugins(), self.plugins(), pset0);
         lemma_done_begin(snap, self.plugins(), queued, cur, sc);
         lemma_snap_ok_add(snap, old(self).plugins(), self.plugins(), cur, sc);
-        lemma_why_ok_snap(snap, why, old(self).plugins(), self.plugins(), cur, sc);
+        lemma_why_ok_snap(snap, why, old(self).plugins(), self.plugins(), pset0, cur, sc);
+        lemma_asp_add(snap, pset0, self.plugins(), cur, sc);
         lemma_snapc_add(snap, old(self).cache(), tr, cur, sc);
         snap = snap.insert(cur, sc);
-        assert(snap.dom() =~= processed_files.s());
         lemma_todo_insert(uni, pset0, cur);
         assert(pset0.insert(cur) =~= processed_files.s());
     }
@@ -417,19 +454,23 @@ impl FixtureDatabase {
     invariant
         uni == scan_universe(), c_it == self.cache(), env == env_of(c_it), cur == pbv(file_path),
         self.ginv(old(self), processed_files.s(), queued, snap, why, src, tr, reanalyze_as_plugin.s(), Some(cur)),
-        snap.contains_key(cur), snap[cur].cache == c_it, importer_is_plugin == snap[cur].plugins.contains(cur),
+        snap.contains_key(cur), snap[cur].cache == c_it, importer_is_plugin == snap[cur].plugins.contains(cur), processed_files.s().contains(cur),
+        importer_is_plugin ==> self.plugins().contains(cur),
         body == module.body@, body_at(env, cur) == Some(body), it3.seq() == imps0, imps_v(imps0) == imps(env, cur),
         cur_imps_done(env, cur, importer_is_plugin, it3.index@ as int, self.plugins(), queued),
         handled_ok(old(self).cache(), tr, queued, new_modules.s()),
-        set_of(files_to_check@).subset_of(queued), new_modules.s().subset_of(queued),
-        queued.subset_of(processed_files.s().union(set_of(files_to_check@)).union(new_modules.s())),
+        set_of(files_to_check@).subset_of(queued), new_modules.s().subset_of(queued), already_cached.s().subset_of(queued),
+        queued.subset_of(processed_files.s().union(set_of(files_to_check@)).union(new_modules.s()).union(already_cached.s())),
         forall|m: PV| #[trigger] new_modules.s().contains(m) ==> canon(m) == m && !c_it.contains_key(m),
-        todo(uni, processed_files.s()) < m0,
+        0 <= i2 < files_to_check@.len(), pbv(&files_to_check@[i2]) == cur,
+        forall|j: int| 0 <= j <= i2 ==> (processed_files.s().contains(pbv(&#[trigger] files_to_check@[j])) || new_modules.s().contains(pbv(&files_to_check@[j])) || already_cached.s().contains(pbv(&files_to_check@[j]))),
+        scan_measure(uni, self.plugins(), processed_files.s()) < m0,
 @loopstart 3
     let ghost ii = it3.index@ as int;
     let ghost pl_a = self.plugins();
     let ghost q_a = queued;
     let ghost nm_a = new_modules.s();
+    let ghost p_a = processed_files.s();
     proof { assert(import == imps0[ii]); assert(imp_v(&import) == imps(env, cur)[ii]); }
 @after resolved_path 2
     let ghost h = pbv(&canonical);
@@ -439,28 +480,31 @@ impl FixtureDatabase {
         let m = Mark { by: cur, cached: c_it.contains_key(h) };
         assert(star_at(env, cur, ii, h));
         lemma_edge_star(env, cur, ii, h);
-        lemma_why_ok_mark(snap, why, old(self).plugins(), pl_a, h, m);
+        lemma_why_ok_mark(snap, why, old(self).plugins(), pl_a, p_a, h, m);
         lemma_rean_mark(why, h, m);
+        lemma_asp_mark(snap, p_a, pl_a, h);
+        lemma_measure_mark(uni, pl_a, p_a, h);
         why = why.insert(h, m);
         assert(self.plugins() =~= pl_a.insert(h));
     }
-@after new_modules 2
-    proof {
-        lemma_handled_enqueue(old(self).cache(), tr, q_a, nm_a, h);
-        src = src.insert(h, cur);
-        queued = queued.insert(h);
-    }
-@after processed_files -2
-    proof {
-        lemma_snap_ok_mono(snap, old(self).plugins(), pl_a, self.plugins());
-        lemma_done_mono(snap, pl_a, q_a, Some(cur), self.plugins(), queued);
-        lemma_fresh_ok_mono(tr, q_a, old(self).plugins(), pl_a, queued, self.plugins());
-        lemma_cur_imps_mono(env, cur, importer_is_plugin, ii, pl_a, q_a, self.plugins(), queued);
-        lemma_cur_imps_step(env, cur, importer_is_plugin, ii, h, self.plugins(), queued);
-    }
 @loopend 3
     proof {
-        if imp_target(env, cur, ii) is None { lemma_cur_imps_unresolved(env, cur, importer_is_plugin, ii, self.plugins(), queued); }
+        let tgt = imp_target(env, cur, ii);
+        if tgt is None { lemma_cur_imps_unresolved(env, cur, importer_is_plugin, ii, self.plugins(), queued); }
+        else {
+            let h = tgt->Some_0;
+            if !processed_files.s().contains(h) {
+                if c_it.contains_key(h) { lemma_handled_enqueue_cached(old(self).cache(), tr, q_a, nm_a, c_it, h); }
+                else { lemma_handled_enqueue(old(self).cache(), tr, q_a, nm_a, h); }
+                src = src.insert(h, Src { by: cur, cache: c_it });
+                queued = queued.insert(h);
+            }
+            lemma_snap_ok_mono(snap, old(self).plugins(), pl_a, self.plugins());
+            lemma_done_mono(snap, pl_a, q_a, Some(cur), self.plugins(), queued);
+            lemma_disc_ok_mono(tr, q_a, old(self).plugins(), pl_a, queued, self.plugins());
+            lemma_cur_imps_mono(env, cur, importer_is_plugin, ii, pl_a, q_a, self.plugins(), queued);
+            lemma_cur_imps_step(env, cur, importer_is_plugin, ii, h, self.plugins(), queued);
+        }
     }
 @after plugin_modules 1
     let ghost plugs0 = plugin_modules@;
@@ -470,51 +514,58 @@ impl FixtureDatabase {
     invariant
         uni == scan_universe(), c_it == self.cache(), env == env_of(c_it), cur == pbv(file_path),
         self.ginv(old(self), processed_files.s(), queued, snap, why, src, tr, reanalyze_as_plugin.s(), Some(cur)),
-        snap.contains_key(cur), snap[cur].cache == c_it, importer_is_plugin == snap[cur].plugins.contains(cur),
+        snap.contains_key(cur), snap[cur].cache == c_it, importer_is_plugin == snap[cur].plugins.contains(cur), processed_files.s().contains(cur),
+        importer_is_plugin ==> self.plugins().contains(cur),
         body_at(env, cur) == Some(body), it4.seq() == plugs0, strs_v(plugs0) == plugs(env, cur),
         cur_imps_done(env, cur, importer_is_plugin, imps(env, cur).len() as int, self.plugins(), queued),
         cur_plugs_done(env, cur, importer_is_plugin, it4.index@ as int, self.plugins(), queued),
         handled_ok(old(self).cache(), tr, queued, new_modules.s()),
-        set_of(files_to_check@).subset_of(queued), new_modules.s().subset_of(queued),
-        queued.subset_of(processed_files.s().union(set_of(files_to_check@)).union(new_modules.s())),
+        set_of(files_to_check@).subset_of(queued), new_modules.s().subset_of(queued), already_cached.s().subset_of(queued),
+        queued.subset_of(processed_files.s().union(set_of(files_to_check@)).union(new_modules.s()).union(already_cached.s())),
         forall|m: PV| #[trigger] new_modules.s().contains(m) ==> canon(m) == m && !c_it.contains_key(m),
-        todo(uni, processed_files.s()) < m0,
+        0 <= i2 < files_to_check@.len(), pbv(&files_to_check@[i2]) == cur,
+        forall|j: int| 0 <= j <= i2 ==> (processed_files.s().contains(pbv(&#[trigger] files_to_check@[j])) || new_modules.s().contains(pbv(&files_to_check@[j])) || already_cached.s().contains(pbv(&files_to_check@[j]))),
+        scan_measure(uni, self.plugins(), processed_files.s()) < m0,
 @loopstart 4
     let ghost jj = it4.index@ as int;
     let ghost pl_a = self.plugins();
     let ghost q_a = queued;
     let ghost nm_a = new_modules.s();
+    let ghost p_a = processed_files.s();
     proof { assert(module_path == plugs0[jj]); assert(module_path@ == plugs(env, cur)[jj]); }
 @after resolved_path 4
     let ghost h = pbv(&canonical);
     proof { assert(plug_target(env, cur, jj) == Some(h)); assert(plug_at(env, cur, jj, h)); lemma_any_edge_plug(env, cur, jj, h); }
-@after insert 5
+@after insert 6
     proof {
         let m = Mark { by: cur, cached: c_it.contains_key(h) };
         lemma_edge_plug(env, cur, jj, h);
-        lemma_why_ok_mark(snap, why, old(self).plugins(), pl_a, h, m);
+        lemma_why_ok_mark(snap, why, old(self).plugins(), pl_a, p_a, h, m);
         lemma_rean_mark(why, h, m);
+        lemma_asp_mark(snap, p_a, pl_a, h);
+        lemma_measure_mark(uni, pl_a, p_a, h);
         why = why.insert(h, m);
         assert(self.plugins() =~= pl_a.insert(h));
     }
-@after new_modules 3
-    proof {
-        lemma_handled_enqueue(old(self).cache(), tr, q_a, nm_a, h);
-        src = src.insert(h, cur);
-        queued = queued.insert(h);
-    }
-@after processed_files -1
-    proof {
-        lemma_snap_ok_mono(snap, old(self).plugins(), pl_a, self.plugins());
-        lemma_done_mono(snap, pl_a, q_a, Some(cur), self.plugins(), queued);
-        lemma_fresh_ok_mono(tr, q_a, old(self).plugins(), pl_a, queued, self.plugins());
-        lemma_cur_imps_mono(env, cur, importer_is_plugin, imps(env, cur).len() as int, pl_a, q_a, self.plugins(), queued);
-        lemma_cur_plugs_mono(env, cur, importer_is_plugin, jj, pl_a, q_a, self.plugins(), queued);
-        lemma_cur_plugs_step(env, cur, importer_is_plugin, jj, h, self.plugins(), queued);
-    }
 @loopend 4
     proof {
-        if plug_target(env, cur, jj) is None { lemma_cur_plugs_unresolved(env, cur, importer_is_plugin, jj, self.plugins(), queued); }
+        let tgt = plug_target(env, cur, jj);
+        if tgt is None { lemma_cur_plugs_unresolved(env, cur, importer_is_plugin, jj, self.plugins(), queued); }
+        else {
+            let h = tgt->Some_0;
+            if !processed_files.s().contains(h) {
+                if c_it.contains_key(h) { lemma_handled_enqueue_cached(old(self).cache(), tr, q_a, nm_a, c_it, h); }
+                else { lemma_handled_enqueue(old(self).cache(), tr, q_a, nm_a, h); }
+                src = src.insert(h, Src { by: cur, cache: c_it });
+                queued = queued.insert(h);
+            }
+            lemma_snap_ok_mono(snap, old(self).plugins(), pl_a, self.plugins());
+            lemma_done_mono(snap, pl_a, q_a, Some(cur), self.plugins(), queued);
+            lemma_disc_ok_mono(tr, q_a, old(self).plugins(), pl_a, queued, self.plugins());
+            lemma_cur_imps_mono(env, cur, importer_is_plugin, imps(env, cur).len() as int, pl_a, q_a, self.plugins(), queued);
+            lemma_cur_plugs_mono(env, cur, importer_is_plugin, jj, pl_a, q_a, self.plugins(), queued);
+            lemma_cur_plugs_step(env, cur, importer_is_plugin, jj, h, self.plugins(), queued);
+        }
     }
 @after for 3
     proof {
@@ -531,20 +582,23 @@ impl FixtureDatabase {
 @before new_modules 4
     proof {
         if new_modules.s().len() == 0 { lemma_len0_empty(new_modules.s()); }
-        assert(set_of(files_to_check@).subset_of(processed_files.s())) by {
-            assert forall|x: PV| set_of(files_to_check@).contains(x) implies processed_files.s().contains(x) by {
+        if already_cached.s().len() == 0 { lemma_len0_empty(already_cached.s()); }
+        assert(set_of(files_to_check@).subset_of(processed_files.s().union(new_modules.s()).union(already_cached.s()))) by {
+            assert forall|x: PV| set_of(files_to_check@).contains(x) implies processed_files.s().union(new_modules.s()).union(already_cached.s()).contains(x) by {
                 let j = choose|j: int| 0 <= j < pbvs(files_to_check@).len() && pbvs(files_to_check@)[j] == x;
-                assert(processed_files.s().contains(pbv(&files_to_check@[j])));
+                assert((processed_files.s().contains(pbv(&files_to_check@[j])) || new_modules.s().contains(pbv(&files_to_check@[j])) || already_cached.s().contains(pbv(&files_to_check@[j]))));
             }
         }
     }
 @before for 4
     let ghost nm = new_modules.s();
+    let ghost ac = already_cached.s();
     let ghost mut left: Set<PV> = nm;
+    let ghost pl5 = self.plugins();
 @loopvar 5 it5
 @loop 5
     invariant
-        uni == scan_universe(), nm == new_modules.s(),
+        uni == scan_universe(), nm == new_modules.s(), ac == already_cached.s(), self.plugins() == pl5,
         forall|j: int| 0 <= j < it5.seq().len() ==> nm.contains(pbv(#[trigger] it5.seq()[j])),
         forall|i: int, j: int| 0 <= i < j < it5.seq().len() ==> pbv(it5.seq()[i]) != pbv(it5.seq()[j]),
         self.ginv(old(self), processed_files.s(), queued, snap, why, src, tr, reanalyze_as_plugin.s(), None),
@@ -552,26 +606,29 @@ impl FixtureDatabase {
         forall|m: PV| #[trigger] left.contains(m) ==> exists|j: int| it5.index@ <= j < it5.seq().len() && pbv(#[trigger] it5.seq()[j]) == m,
         forall|m: PV| #[trigger] nm.contains(m) ==> canon(m) == m,
         forall|j: int| it5.index@ <= j < it5.seq().len() ==> !self.cache().contains_key(pbv(#[trigger] it5.seq()[j])),
-        nm.subset_of(queued), queued.subset_of(processed_files.s().union(nm)),
+        nm.subset_of(queued), ac.subset_of(queued), queued.subset_of(processed_files.s().union(nm).union(ac)),
 @loopstart 5
     let ghost m = pbv(module_path);
     let ghost i5 = it5.index@ as int;
     let ghost c_b = self.cache();
+    let ghost i_b = self.idx();
     let ghost tr_b = tr;
-    proof { assert(*module_path == *it5.seq()[i5]); lemma_why_pl(snap, why, old(self).plugins(), self.plugins()); }
-@after clone 9
-    proof {
-        let s = AStep { f: m, text: content@, cleanup: false, cache: c_b, plugins: self.plugins() };
-        lemma_chain_push(old(self).cache(), tr, c_b, s, self.cache());
-        lemma_fresh_ok_push(tr, queued, old(self).plugins(), self.plugins(), s);
-        lemma_cache_src_push(old(self).cache(), tr, c_b, s, self.cache());
-        lemma_snapc_push(snap, old(self).cache(), tr, s);
-        lemma_replay_push(old(self).idx(), old(self).consts(), tr, s);
-        tr = tr.push(s);
-        assert(tr[tr.len() - 1].f == m);
-    }
+    proof { assert(*module_path == *it5.seq()[i5]); lemma_why_pl(snap, why, old(self).plugins(), self.plugins(), processed_files.s()); }
 @loopend 5
     proof {
+        if fs_exists(m) && fs_read(m) is Some {
+            // the module was analysed: with cleanup iff the index had entries for it
+            let s = AStep { f: m, text: fs_read(m)->Some_0, cleanup: has_entries(i_b, m), cache: c_b, plugins: self.plugins() };
+            lemma_chain_push(old(self).cache(), tr, c_b, s, self.cache());
+            lemma_disc_ok_push(tr, queued, old(self).plugins(), self.plugins(), s);
+            lemma_cache_src_push(old(self).cache(), tr, c_b, s, self.cache());
+            lemma_snapc_push(snap, old(self).cache(), tr, s);
+            lemma_replay_push(old(self).idx(), old(self).consts(), tr, s);
+            lemma_cleanup_push(old(self).idx(), old(self).consts(), tr, s);
+            tr = tr.push(s);
+            assert(tr[tr.len() - 1].f == m);
+            assert(tr.last() == s);
+        }
         lemma_handled_dequeue(old(self).cache(), tr_b, tr, queued, left, m);
         left = left.remove(m);
     }
@@ -579,14 +636,14 @@ impl FixtureDatabase {
     proof { assert(left =~= Set::<PV>::empty()); }
 @after files_to_check 7
     proof {
-        assert(set_of(files_to_check@) =~= nm) by {
-            assert forall|x: PV| nm.contains(x) implies set_of(files_to_check@).contains(x) by {
+        assert(set_of(files_to_check@) =~= nm.union(ac)) by {
+            assert forall|x: PV| nm.union(ac).contains(x) implies set_of(files_to_check@).contains(x) by {
                 let j = choose|j: int| 0 <= j < files_to_check@.len() && pbv(&#[trigger] files_to_check@[j]) == x;
                 assert(pbvs(files_to_check@)[j] == x);
             }
-            assert forall|x: PV| set_of(files_to_check@).contains(x) implies nm.contains(x) by {
+            assert forall|x: PV| set_of(files_to_check@).contains(x) implies nm.union(ac).contains(x) by {
                 let j = choose|j: int| 0 <= j < pbvs(files_to_check@).len() && pbvs(files_to_check@)[j] == x;
-                assert(nm.contains(pbv(&files_to_check@[j])));
+                assert(nm.union(ac).contains(pbv(&files_to_check@[j])));
             }
         }
     }
@@ -620,7 +677,7 @@ impl FixtureDatabase {
     let ghost c_b = self.cache();
     let ghost tr_b = tr;
     proof { assert(*module_path == *it6.seq()[i6]); }
-@after clone 10
+@after clone -1
     proof {
         let s = AStep { f: m, text: (*content)@, cleanup: true, cache: c_b, plugins: plf };
         lemma_chain_push(old(self).cache(), tr, c_b, s, self.cache());
@@ -649,31 +706,33 @@ impl FixtureDatabase {
     proof {
         let h = Hist { snap: snap, why: why, src: src, tr: tr, nfresh: nf };
         assert(tr.take(nf) =~= tr_f);
+        assert(snap.dom() =~= processed_files.s());
         assert(rean_final(why, tr, nf, self.cache(), plf)) by {
             if ra.len() == 0 { assert(ra =~= Set::<PV>::empty()); assert(tr == tr_f); }
         }
         assert(Self::post_frame(old(self), self, h)) by { reveal(why_ok); }
-        assert(Self::post_P(old(self), self, h)) by { reveal(why_ok); reveal(snap_ok); reveal(done_ok); reveal(file_done); }
+        assert(Self::post_P(old(self), self, h)) by { reveal(why_ok); reveal(snap_ok); reveal(done_ok); reveal(file_done); reveal(asp_ok); }
         assert(Self::post_D(old(self), self, h)) by {
             reveal(done_ok); reveal(file_done); reveal(handled_ok);
-            assert forall|g: PV, x: PV| snap.contains_key(g) && #[trigger] snap[g].cache.contains_key(x) implies old(self).cache().contains_key(x) || has_fresh(tr, nf, x) by {
+            assert forall|g: PV, x: PV| snap.contains_key(g) && #[trigger] snap[g].cache.contains_key(x) implies old(self).cache().contains_key(x) || has_disc(tr, nf, x) by {
                 reveal(snapc_ok); reveal(cache_src);
-                if has_fresh(tr_f, tr_f.len() as int, x) {
+                if has_disc(tr_f, tr_f.len() as int, x) {
                     let i = choose|i: int| 0 <= i < tr_f.len() && (#[trigger] tr_f[i]).f == x;
                     assert(tr.take(nf)[i] == tr[i]);
                 }
             }
             assert forall|m: PV| #[trigger] snap.contains_key(m) implies handled(old(self).cache(), tr, nf, m) by {
                 assert(queued.contains(m));
-                if has_fresh(tr_f, tr_f.len() as int, m) {
+                if has_disc(tr_f, tr_f.len() as int, m) {
                     let i = choose|i: int| 0 <= i < tr_f.len() && (#[trigger] tr_f[i]).f == m;
                     assert(tr.take(nf)[i] == tr[i]);
                 }
             }
         }
         assert(Self::post_R(old(self), self, h)) by {
-            reveal(fresh_ok);
-            assert forall|i: int| 0 <= i < nf implies fresh_step_ok(#[trigger] tr[i]) && snap.contains_key(tr[i].f)
+            reveal(disc_ok);
+            lemma_cleanup_ext(old(self).idx(), old(self).consts(), tr_f, nf, tr);
+            assert forall|i: int| 0 <= i < nf implies disc_step_ok(#[trigger] tr[i]) && snap.contains_key(tr[i].f)
                 && old(self).plugins().subset_of(tr[i].plugins) && tr[i].plugins.subset_of(self.plugins()) by {
                 assert(tr.take(nf)[i] == tr[i]);
             }
@@ -683,424 +742,6 @@ impl FixtureDatabase {
 @*/
 //@@EXTRACT-END
 //@@CANARY-BEGIN
-/*@ extract src/fixtures/scanner.rs scan_imported_fixture_modules
-@tags C14 C12
-@as canary_scan_contract_vacuous
-@recv mut
-@replace 1 `use std::collections::HashSet;` => ``
-@wrapexpr 1 `key .file_name() .and_then(|n| n.to_str()) .map(|n| { n == "conftest.py" || (n.starts_with("test_") && n.ends_with(".py")) || n.ends_with("_test.py") }) .unwrap_or(false)` => `Self::vp_is_conftest_or_test_c(key)` with fn vp_is_conftest_or_test_c(key: &PathBuf) -> (r: bool) ensures r == is_conftest_or_test_name(pbv(key))
-@wrapexpr 1 `std::fs::read_to_string(module_path)` => `Self::vp_read_to_string_c(module_path)` with fn vp_read_to_string_c(module_path: &PathBuf) -> (r: Result<String, std::io::Error>) ensures (match r { Ok(s) => Some(s@), Err(_) => None::<Seq<char>> }) == fs_read(pbv(module_path))
-@closure map:1 |e: &EditableInstall| -> (p: PathBuf) ensures pbv(&p) == pbv(&e.source_root)
-@closure filter:1 |entry: &RefMulti<'_, PathBuf, Arc<String>>| -> (b: bool) ensures b == is_initial(pbvs(site_packages_paths@), pbvs(editable_roots@), self.plugins(), pbv(entry.k))
-@closure any:1 |sp: &PathBuf| -> (b: bool) ensures b == pv_is_prefix(pbv(sp), pbv(key))
-@closure any:2 |er: &PathBuf| -> (b: bool) ensures b == pv_is_prefix(pbv(er), pbv(key))
-@closure map:3 |entry: RefMulti<'_, PathBuf, Arc<String>>| -> (p: PathBuf) ensures pbv(&p) == pbv(entry.k)
-@nocontinue 2
-@sig
-    requires
-        // FINITE-UNIVERSE ASSUMPTION, part 1: the keys of file_cache lie in scan_universe()
-        old(self).cache().dom().subset_of(scan_universe()),
-        // C11: `iteration` is an i32 counter; it stays below the number of paths in the universe
-        scan_universe().len() < 0x7fff_ffff,
-    ensures
-        exists|h: Hist| Self::hist_post(old(self), final(self), h),
-@start
-    let ghost uni = scan_universe();
-    let ghost mut snap: Map<PV, Snap> = Map::empty();
-    let ghost mut why: Map<PV, Mark> = Map::empty();
-    let ghost mut src: Map<PV, PV> = Map::empty();
-    let ghost mut tr: Seq<AStep> = Seq::empty();
-    let ghost mut queued: Set<PV> = Set::empty();
-@after is_venv_plugin 1
-    proof {
-        let s = site_packages_paths@;
-        assert(is_venv_plugin == seq_has_prefix_of(pbvs(s), pbv(key))) by {
-            if is_venv_plugin { let i = choose|i: int| 0 <= i < s.len() && pv_is_prefix(pbv(#[trigger] s.as_ref()[i]), pbv(key)); assert(pbvs(s)[i] == pbv(&s[i])); }
-            if seq_has_prefix_of(pbvs(s), pbv(key)) { let i = choose|i: int| 0 <= i < pbvs(s).len() && pv_is_prefix(#[trigger] pbvs(s)[i], pbv(key)); let y = s.as_ref()[i]; }
-        }
-    }
-@after is_editable_plugin 1
-    proof {
-        let s = editable_roots@;
-        assert(is_editable_plugin == seq_has_prefix_of(pbvs(s), pbv(key))) by {
-            if is_editable_plugin { let i = choose|i: int| 0 <= i < s.len() && pv_is_prefix(pbv(#[trigger] s.as_ref()[i]), pbv(key)); assert(pbvs(s)[i] == pbv(&s[i])); }
-            if seq_has_prefix_of(pbvs(s), pbv(key)) { let i = choose|i: int| 0 <= i < pbvs(s).len() && pv_is_prefix(#[trigger] pbvs(s)[i], pbv(key)); let y = s.as_ref()[i]; }
-        }
-    }
-@after files_to_check 1
-    proof {
-        assert(pbvs(site_packages_paths@) =~= pbvs(self.site_packages_paths@));
-        assert(pbvs(editable_roots@) =~= roots(self.editable_install_roots@));
-        assert forall|j: int| 0 <= j < files_to_check@.len() implies old(self).initial(pbv(&#[trigger] files_to_check@[j])) by { }
-        assert forall|k: PV| old(self).initial(k) implies set_of(files_to_check@).contains(k) by {
-            assert(want(entry_key_fn(), k));
-            assert(exists|j: int| 0 <= j < files_to_check@.len() && pbv(&#[trigger] files_to_check@[j]) == k);
-            let j = choose|j: int| 0 <= j < files_to_check@.len() && pbv(&#[trigger] files_to_check@[j]) == k;
-            assert(pbvs(files_to_check@)[j] == k);
-        }
-        queued = set_of(files_to_check@);
-    }
-@return 1
-    assert(false);   // V1: context of the start-set computation
-    let h = Hist { snap: snap, why: why, src: src, tr: tr, nfresh: 0 };
-    assert(set_of(files_to_check@) =~= Set::<PV>::empty());
-    assert(Self::post_frame(old(self), self, h)) by { assert(self.plugins() =~= old(self).plugins().union(why.dom())); }
-    assert(Self::post_P(old(self), self, h));
-    assert(Self::post_D(old(self), self, h));
-    assert(Self::post_R(old(self), self, h));
-    assert(Self::hist_post(old(self), self, h));
-@before files_to_check 4
-    let ghost mut m0: nat = todo(uni, processed_files.s());
-    proof {
-        assert(snap.dom() =~= processed_files.s());
-        assert(self.plugins() =~= old(self).plugins().union(why.dom()));
-        assert(done_ok(snap, self.plugins(), queued, None)) by { reveal(done_ok); }
-        assert(snap_ok(snap, old(self).plugins(), self.plugins())) by { reveal(snap_ok); }
-        assert(why_ok(snap, why, old(self).plugins(), self.plugins())) by { reveal(why_ok); }
-        assert(reanalyze_as_plugin.s() =~= rean_set(why));
-        assert(fresh_ok(tr, queued, old(self).plugins(), self.plugins())) by { reveal(fresh_ok); }
-        assert(handled_ok(old(self).cache(), tr, queued, Set::<PV>::empty())) by { reveal(handled_ok); }
-        assert(cache_src(old(self).cache(), tr, self.cache())) by { reveal(cache_src); }
-        assert(snapc_ok(snap, old(self).cache(), tr)) by { reveal(snapc_ok); }
-        lemma_todo_le(uni, processed_files.s());
-    }
-@loop 1
-    invariant_except_break
-        iteration as int + todo(uni, processed_files.s()) <= uni.len(),
-    invariant
-        uni == scan_universe(), uni.len() < 0x7fff_ffff,
-        self.ginv(old(self), processed_files.s(), queued, snap, why, src, tr, reanalyze_as_plugin.s(), None),
-        handled_ok(old(self).cache(), tr, queued, Set::<PV>::empty()),
-        set_of(files_to_check@).subset_of(queued), queued.subset_of(processed_files.s().union(set_of(files_to_check@))),
-        0 <= iteration as int,
-    ensures
-        queued =~= processed_files.s(),
-    decreases todo(uni, processed_files.s()),
-@loopstart 1
-    proof { m0 = todo(uni, processed_files.s()); }
-    let ghost c_it = self.cache();
-@loopvar 2 it2
-@loop 2
-    invariant
-        uni == scan_universe(), c_it == self.cache(), it2.seq() == files_to_check@.as_ref(),
-        self.ginv(old(self), processed_files.s(), queued, snap, why, src, tr, reanalyze_as_plugin.s(), None),
-        handled_ok(old(self).cache(), tr, queued, new_modules.s()),
-        set_of(files_to_check@).subset_of(queued), new_modules.s().subset_of(queued),
-        queued.subset_of(processed_files.s().union(set_of(files_to_check@)).union(new_modules.s())),
-        forall|m: PV| #[trigger] new_modules.s().contains(m) ==> canon(m) == m && !c_it.contains_key(m),
-        forall|j: int| 0 <= j < it2.index@ ==> processed_files.s().contains(pbv(&#[trigger] files_to_check@[j])),
-        todo(uni, processed_files.s()) <= m0, new_modules.s().len() > 0 ==> todo(uni, processed_files.s()) < m0,
-@loopstart 2
-    let ghost cur = pbv(file_path);
-    let ghost i2 = it2.index@ as int;
-    let ghost pset0 = processed_files.s();
-    proof {
-        assert(*file_path == files_to_check@[i2]);
-        assert(pbvs(files_to_check@)[i2] == cur);
-        assert(set_of(files_to_check@).contains(cur));
-    }
-@after importer_is_plugin 1
-    let ghost sc = Snap { cache: self.cache(), plugins: self.plugins() };
-    let ghost env = env_of(c_it);
-    proof {
-        assert(!snap.contains_key(cur));
-        lemma_why_pl(snap, why, old(self).plugins(), self.plugins());
-        lemma_done_begin(snap, self.plugins(), queued, cur, sc);
-        lemma_snap_ok_add(snap, old(self).plugins(), self.plugins(), cur, sc);
-        lemma_why_ok_snap(snap, why, old(self).plugins(), self.plugins(), cur, sc);
-        lemma_snapc_add(snap, old(self).cache(), tr, cur, sc);
-        snap = snap.insert(cur, sc);
-        assert(snap.dom() =~= processed_files.s());
-        lemma_todo_insert(uni, pset0, cur);
-        assert(pset0.insert(cur) =~= processed_files.s());
-    }
-@continueproof 2 2
-    lemma_file_done_no_body(snap[cur], cur, self.plugins(), queued);
-    lemma_done_end(snap, self.plugins(), queued, cur);
-@continueproof 2 3
-    lemma_file_done_no_body(snap[cur], cur, self.plugins(), queued);
-    lemma_done_end(snap, self.plugins(), queued, cur);
-@after imports 1
-    let ghost body = module.body@;
-    let ghost imps0 = imports@;
-    proof {
-        assert(body_at(env, cur) == Some(body));
-        assert(imps_v(imps0) == imps(env, cur));
-        lemma_cur_imps_zero(env, cur, importer_is_plugin, self.plugins(), queued);
-    }
-@loopvar 3 it3
-@loop 3
-    invariant
-        uni == scan_universe(), c_it == self.cache(), env == env_of(c_it), cur == pbv(file_path),
-        self.ginv(old(self), processed_files.s(), queued, snap, why, src, tr, reanalyze_as_plugin.s(), Some(cur)),
-        snap.contains_key(cur), snap[cur].cache == c_it, importer_is_plugin == snap[cur].plugins.contains(cur),
-        body == module.body@, body_at(env, cur) == Some(body), it3.seq() == imps0, imps_v(imps0) == imps(env, cur),
-        cur_imps_done(env, cur, importer_is_plugin, it3.index@ as int, self.plugins(), queued),
-        handled_ok(old(self).cache(), tr, queued, new_modules.s()),
-        set_of(files_to_check@).subset_of(queued), new_modules.s().subset_of(queued),
-        queued.subset_of(processed_files.s().union(set_of(files_to_check@)).union(new_modules.s())),
-        forall|m: PV| #[trigger] new_modules.s().contains(m) ==> canon(m) == m && !c_it.contains_key(m),
-        todo(uni, processed_files.s()) < m0,
-@loopstart 3
-    let ghost ii = it3.index@ as int;
-    let ghost pl_a = self.plugins();
-    let ghost q_a = queued;
-    let ghost nm_a = new_modules.s();
-    proof { assert(import == imps0[ii]); assert(imp_v(&import) == imps(env, cur)[ii]); }
-@after resolved_path 2
-    let ghost h = pbv(&canonical);
-    proof { assert(imp_target(env, cur, ii) == Some(h)); assert(imp_any_at(env, cur, ii, h)); lemma_any_edge_imp(env, cur, ii, h); }
-@after insert 2
-    proof {
-        assert(false);   // V2: imports loop, branch that marks a star-imported module (resolve / canonicalise / insert)
-        let m = Mark { by: cur, cached: c_it.contains_key(h) };
-        assert(star_at(env, cur, ii, h));
-        lemma_edge_star(env, cur, ii, h);
-        lemma_why_ok_mark(snap, why, old(self).plugins(), pl_a, h, m);
-        lemma_rean_mark(why, h, m);
-        why = why.insert(h, m);
-        assert(self.plugins() =~= pl_a.insert(h));
-    }
-@after new_modules 2
-    proof {
-        lemma_handled_enqueue(old(self).cache(), tr, q_a, nm_a, h);
-        src = src.insert(h, cur);
-        queued = queued.insert(h);
-    }
-@after processed_files -2
-    proof {
-        lemma_snap_ok_mono(snap, old(self).plugins(), pl_a, self.plugins());
-        lemma_done_mono(snap, pl_a, q_a, Some(cur), self.plugins(), queued);
-        lemma_fresh_ok_mono(tr, q_a, old(self).plugins(), pl_a, queued, self.plugins());
-        lemma_cur_imps_mono(env, cur, importer_is_plugin, ii, pl_a, q_a, self.plugins(), queued);
-        lemma_cur_imps_step(env, cur, importer_is_plugin, ii, h, self.plugins(), queued);
-    }
-@loopend 3
-    proof {
-        if imp_target(env, cur, ii) is None { lemma_cur_imps_unresolved(env, cur, importer_is_plugin, ii, self.plugins(), queued); }
-    }
-@after plugin_modules 1
-    let ghost plugs0 = plugin_modules@;
-    proof { assert(strs_v(plugs0) == plugs(env, cur)); lemma_cur_plugs_zero(env, cur, importer_is_plugin, self.plugins(), queued); }
-@loopvar 4 it4
-@loop 4
-    invariant
-        uni == scan_universe(), c_it == self.cache(), env == env_of(c_it), cur == pbv(file_path),
-        self.ginv(old(self), processed_files.s(), queued, snap, why, src, tr, reanalyze_as_plugin.s(), Some(cur)),
-        snap.contains_key(cur), snap[cur].cache == c_it, importer_is_plugin == snap[cur].plugins.contains(cur),
-        body_at(env, cur) == Some(body), it4.seq() == plugs0, strs_v(plugs0) == plugs(env, cur),
-        cur_imps_done(env, cur, importer_is_plugin, imps(env, cur).len() as int, self.plugins(), queued),
-        cur_plugs_done(env, cur, importer_is_plugin, it4.index@ as int, self.plugins(), queued),
-        handled_ok(old(self).cache(), tr, queued, new_modules.s()),
-        set_of(files_to_check@).subset_of(queued), new_modules.s().subset_of(queued),
-        queued.subset_of(processed_files.s().union(set_of(files_to_check@)).union(new_modules.s())),
-        forall|m: PV| #[trigger] new_modules.s().contains(m) ==> canon(m) == m && !c_it.contains_key(m),
-        todo(uni, processed_files.s()) < m0,
-@loopstart 4
-    let ghost jj = it4.index@ as int;
-    let ghost pl_a = self.plugins();
-    let ghost q_a = queued;
-    let ghost nm_a = new_modules.s();
-    proof { assert(module_path == plugs0[jj]); assert(module_path@ == plugs(env, cur)[jj]); }
-@after resolved_path 4
-    let ghost h = pbv(&canonical);
-    proof { assert(plug_target(env, cur, jj) == Some(h)); assert(plug_at(env, cur, jj, h)); lemma_any_edge_plug(env, cur, jj, h); }
-@after insert 5
-    proof {
-        let m = Mark { by: cur, cached: c_it.contains_key(h) };
-        lemma_edge_plug(env, cur, jj, h);
-        lemma_why_ok_mark(snap, why, old(self).plugins(), pl_a, h, m);
-        lemma_rean_mark(why, h, m);
-        why = why.insert(h, m);
-        assert(self.plugins() =~= pl_a.insert(h));
-    }
-@after new_modules 3
-    proof {
-        assert(false);   // V3: pytest_plugins loop, branch that enqueues a new module
-        lemma_handled_enqueue(old(self).cache(), tr, q_a, nm_a, h);
-        src = src.insert(h, cur);
-        queued = queued.insert(h);
-    }
-@after processed_files -1
-    proof {
-        lemma_snap_ok_mono(snap, old(self).plugins(), pl_a, self.plugins());
-        lemma_done_mono(snap, pl_a, q_a, Some(cur), self.plugins(), queued);
-        lemma_fresh_ok_mono(tr, q_a, old(self).plugins(), pl_a, queued, self.plugins());
-        lemma_cur_imps_mono(env, cur, importer_is_plugin, imps(env, cur).len() as int, pl_a, q_a, self.plugins(), queued);
-        lemma_cur_plugs_mono(env, cur, importer_is_plugin, jj, pl_a, q_a, self.plugins(), queued);
-        lemma_cur_plugs_step(env, cur, importer_is_plugin, jj, h, self.plugins(), queued);
-    }
-@loopend 4
-    proof {
-        if plug_target(env, cur, jj) is None { lemma_cur_plugs_unresolved(env, cur, importer_is_plugin, jj, self.plugins(), queued); }
-    }
-@after for 3
-    proof {
-        lemma_file_done_from_lists(snap[cur], cur, self.plugins(), queued);
-        lemma_done_end(snap, self.plugins(), queued, cur);
-    }
-@after parsed 2
-    proof {
-        if body_at(env, cur) is None {
-            lemma_file_done_no_body(snap[cur], cur, self.plugins(), queued);
-            lemma_done_end(snap, self.plugins(), queued, cur);
-        }
-    }
-@before new_modules 4
-    proof {
-        if new_modules.s().len() == 0 { lemma_len0_empty(new_modules.s()); }
-        assert(set_of(files_to_check@).subset_of(processed_files.s())) by {
-            assert forall|x: PV| set_of(files_to_check@).contains(x) implies processed_files.s().contains(x) by {
-                let j = choose|j: int| 0 <= j < pbvs(files_to_check@).len() && pbvs(files_to_check@)[j] == x;
-                assert(processed_files.s().contains(pbv(&files_to_check@[j])));
-            }
-        }
-    }
-@before for 4
-    let ghost nm = new_modules.s();
-    let ghost mut left: Set<PV> = nm;
-@loopvar 5 it5
-@loop 5
-    invariant
-        uni == scan_universe(), nm == new_modules.s(),
-        forall|j: int| 0 <= j < it5.seq().len() ==> nm.contains(pbv(#[trigger] it5.seq()[j])),
-        forall|i: int, j: int| 0 <= i < j < it5.seq().len() ==> pbv(it5.seq()[i]) != pbv(it5.seq()[j]),
-        self.ginv(old(self), processed_files.s(), queued, snap, why, src, tr, reanalyze_as_plugin.s(), None),
-        handled_ok(old(self).cache(), tr, queued, left), left.subset_of(nm),
-        forall|m: PV| #[trigger] left.contains(m) ==> exists|j: int| it5.index@ <= j < it5.seq().len() && pbv(#[trigger] it5.seq()[j]) == m,
-        forall|m: PV| #[trigger] nm.contains(m) ==> canon(m) == m,
-        forall|j: int| it5.index@ <= j < it5.seq().len() ==> !self.cache().contains_key(pbv(#[trigger] it5.seq()[j])),
-        nm.subset_of(queued), queued.subset_of(processed_files.s().union(nm)),
-@loopstart 5
-    let ghost m = pbv(module_path);
-    let ghost i5 = it5.index@ as int;
-    let ghost c_b = self.cache();
-    let ghost tr_b = tr;
-    proof { assert(*module_path == *it5.seq()[i5]); lemma_why_pl(snap, why, old(self).plugins(), self.plugins()); }
-@after clone 9
-    proof {
-        assert(false);   // V4: analysis loop, after exists / read / analyze_file_fresh
-        let s = AStep { f: m, text: content@, cleanup: false, cache: c_b, plugins: self.plugins() };
-        lemma_chain_push(old(self).cache(), tr, c_b, s, self.cache());
-        lemma_fresh_ok_push(tr, queued, old(self).plugins(), self.plugins(), s);
-        lemma_cache_src_push(old(self).cache(), tr, c_b, s, self.cache());
-        lemma_snapc_push(snap, old(self).cache(), tr, s);
-        lemma_replay_push(old(self).idx(), old(self).consts(), tr, s);
-        tr = tr.push(s);
-        assert(tr[tr.len() - 1].f == m);
-    }
-@loopend 5
-    proof {
-        lemma_handled_dequeue(old(self).cache(), tr_b, tr, queued, left, m);
-        left = left.remove(m);
-    }
-@after for 4
-    proof { assert(left =~= Set::<PV>::empty()); }
-@after files_to_check 7
-    proof {
-        assert(set_of(files_to_check@) =~= nm) by {
-            assert forall|x: PV| nm.contains(x) implies set_of(files_to_check@).contains(x) by {
-                let j = choose|j: int| 0 <= j < files_to_check@.len() && pbv(&#[trigger] files_to_check@[j]) == x;
-                assert(pbvs(files_to_check@)[j] == x);
-            }
-            assert forall|x: PV| set_of(files_to_check@).contains(x) implies nm.contains(x) by {
-                let j = choose|j: int| 0 <= j < pbvs(files_to_check@).len() && pbvs(files_to_check@)[j] == x;
-                assert(nm.contains(pbv(&files_to_check@[j])));
-            }
-        }
-    }
-@before reanalyze_as_plugin 4
-    let ghost nf = tr.len() as int;
-    let ghost tr_f = tr;
-    let ghost plf = self.plugins();
-    let ghost ra = reanalyze_as_plugin.s();
-    let ghost mut done6: Set<PV> = Set::empty();
-    proof {
-        assert(tr.take(nf) =~= tr_f);
-        assert forall|x: PV| #[trigger] ra.contains(x) implies canon(x) == x by { reveal(why_ok); assert(why.contains_key(x)); }
-    }
-@loopvar 6 it6
-@loop 6
-    invariant
-        ra == reanalyze_as_plugin.s(), ra == rean_set(why), plf == self.plugins(), self.consts() == old(self).consts(),
-        forall|j: int| 0 <= j < it6.seq().len() ==> ra.contains(pbv(#[trigger] it6.seq()[j])),
-        forall|i: int, j: int| 0 <= i < j < it6.seq().len() ==> pbv(it6.seq()[i]) != pbv(it6.seq()[j]),
-        forall|x: PV| #[trigger] ra.contains(x) ==> canon(x) == x,
-        chain_ok(old(self).cache(), tr, self.cache()), self.idx() == replay(old(self).idx(), old(self).consts(), tr),
-        0 <= nf <= tr.len(), tr.take(nf) == tr_f,
-        forall|i: int| nf <= i < tr.len() ==> rean_step_ok(why, plf, #[trigger] tr[i]) && done6.contains(tr[i].f),
-        forall|i: int, j: int| nf <= i < j < tr.len() ==> (#[trigger] tr[i]).f != (#[trigger] tr[j]).f,
-        forall|x: PV| #[trigger] ra.contains(x) ==> done6.contains(x) || exists|j: int| it6.index@ <= j < it6.seq().len() && pbv(#[trigger] it6.seq()[j]) == x,
-        forall|j: int| it6.index@ <= j < it6.seq().len() ==> !done6.contains(pbv(#[trigger] it6.seq()[j])),
-        forall|x: PV| #[trigger] done6.contains(x) ==> has_rean(tr, nf, x) || (!self.cache().contains_key(x) && fs_read(x) is None),
-@loopstart 6
-    let ghost m = pbv(module_path);
-    let ghost i6 = it6.index@ as int;
-    let ghost c_b = self.cache();
-    let ghost tr_b = tr;
-    proof { assert(*module_path == *it6.seq()[i6]); }
-@after clone 10
-    proof {
-        assert(false);   // V5: re-analysis loop, after get_file_content / analyze_file
-        let s = AStep { f: m, text: (*content)@, cleanup: true, cache: c_b, plugins: plf };
-        lemma_chain_push(old(self).cache(), tr, c_b, s, self.cache());
-        lemma_replay_push(old(self).idx(), old(self).consts(), tr, s);
-        tr = tr.push(s);
-        assert(tr.take(nf) =~= tr_f);
-        assert(tr[tr.len() - 1].f == m);
-    }
-@loopend 6
-    proof {
-        assert forall|x: PV| done6.contains(x) && has_rean(tr_b, nf, x) implies has_rean(tr, nf, x) by {
-            let i = choose|i: int| nf <= i < tr_b.len() && (#[trigger] tr_b[i]).f == x;
-            assert(tr[i].f == x);
-        }
-        done6 = done6.insert(m);
-    }
-@after for 5
-    proof {
-        assert(rean_final(why, tr, nf, self.cache(), plf)) by {
-            assert forall|x: PV| #[trigger] rean_set(why).contains(x) implies has_rean(tr, nf, x) || content_of(self.cache(), x) is None by {
-                assert(done6.contains(x));
-            }
-        }
-    }
-@end
-    proof {
-        let h = Hist { snap: snap, why: why, src: src, tr: tr, nfresh: nf };
-        assert(tr.take(nf) =~= tr_f);
-        assert(rean_final(why, tr, nf, self.cache(), plf)) by {
-            if ra.len() == 0 { assert(ra =~= Set::<PV>::empty()); assert(tr == tr_f); }
-        }
-        assert(Self::post_frame(old(self), self, h)) by { reveal(why_ok); }
-        assert(Self::post_P(old(self), self, h)) by { reveal(why_ok); reveal(snap_ok); reveal(done_ok); reveal(file_done); }
-        assert(Self::post_D(old(self), self, h)) by {
-            reveal(done_ok); reveal(file_done); reveal(handled_ok);
-            assert forall|g: PV, x: PV| snap.contains_key(g) && #[trigger] snap[g].cache.contains_key(x) implies old(self).cache().contains_key(x) || has_fresh(tr, nf, x) by {
-                reveal(snapc_ok); reveal(cache_src);
-                if has_fresh(tr_f, tr_f.len() as int, x) {
-                    let i = choose|i: int| 0 <= i < tr_f.len() && (#[trigger] tr_f[i]).f == x;
-                    assert(tr.take(nf)[i] == tr[i]);
-                }
-            }
-            assert forall|m: PV| #[trigger] snap.contains_key(m) implies handled(old(self).cache(), tr, nf, m) by {
-                assert(queued.contains(m));
-                if has_fresh(tr_f, tr_f.len() as int, m) {
-                    let i = choose|i: int| 0 <= i < tr_f.len() && (#[trigger] tr_f[i]).f == m;
-                    assert(tr.take(nf)[i] == tr[i]);
-                }
-            }
-        }
-        assert(Self::post_R(old(self), self, h)) by {
-            reveal(fresh_ok);
-            assert forall|i: int| 0 <= i < nf implies fresh_step_ok(#[trigger] tr[i]) && snap.contains_key(tr[i].f)
-                && old(self).plugins().subset_of(tr[i].plugins) && tr[i].plugins.subset_of(self.plugins()) by {
-                assert(tr.take(nf)[i] == tr[i]);
-            }
-        }
-        assert(Self::hist_post(old(self), self, h));
-    }
-@*/
 //@@CANARY-END
 
 }
@@ -1189,7 +830,7 @@ pub proof fn lemma_C14_discovery_chain(o: FixtureDatabase, f: FixtureDatabase, h
         assert(any_edge(env_of(h.snap[g].cache), g, p[n - 1 + 1]));
         if !h.snap.contains_key(p[n]) {
             assert(h.snap[g].cache.contains_key(p[n]));
-            if has_fresh(h.tr, h.nfresh, p[n]) { let i = choose|i: int| 0 <= i < h.nfresh && i < h.tr.len() && (#[trigger] h.tr[i]).f == p[n]; }
+            if has_disc(h.tr, h.nfresh, p[n]) { let i = choose|i: int| 0 <= i < h.nfresh && i < h.tr.len() && (#[trigger] h.tr[i]).f == p[n]; }
         }
     }
 }
@@ -1198,11 +839,11 @@ pub proof fn lemma_C14_discovery_chain(o: FixtureDatabase, f: FixtureDatabase, h
 /// does not exist / cannot be read
 pub proof fn lemma_C14_processed_accounted_for(o: FixtureDatabase, f: FixtureDatabase, h: Hist, m: PV)
     requires post(o, f, h), h.snap.contains_key(m), !o.cache().contains_key(m), fs_exists(m), fs_read(m) is Some,
-    ensures exists|i: int| 0 <= i < h.nfresh && (#[trigger] h.tr[i]).f == m && !h.tr[i].cleanup && Some(h.tr[i].text) == fs_read(m),
+    ensures exists|i: int| 0 <= i < h.nfresh && (#[trigger] h.tr[i]).f == m && Some(h.tr[i].text) == fs_read(m),
 {
     assert(handled(o.cache(), h.tr, h.nfresh, m));
     let i = choose|i: int| 0 <= i < h.nfresh && i < h.tr.len() && (#[trigger] h.tr[i]).f == m;
-    assert(fresh_step_ok(h.tr[i]));
+    assert(disc_step_ok(h.tr[i]));
 }
 //@tags C14
 /// (R) a module is re-analysed (analyze_file, with cleanup) only if it was newly marked while it was cached
@@ -1285,7 +926,7 @@ pub proof fn lemma_C14_processed_files_end_up_cached(o: FixtureDatabase, f: Fixt
     lemma_steps_in_universe(o, f, h);
     lemma_chain_no_eviction(o.cache(), h.tr, f.cache(), scan_universe());
     assert(handled(o.cache(), h.tr, h.nfresh, m));
-    if has_fresh(h.tr, h.nfresh, m) {
+    if has_disc(h.tr, h.nfresh, m) {
         let i = choose|i: int| 0 <= i < h.nfresh && i < h.tr.len() && (#[trigger] h.tr[i]).f == m;
         lemma_paths_contains(h.tr, i);
     }
@@ -1303,7 +944,7 @@ pub proof fn lemma_C14_fresh_analysis_once(o: FixtureDatabase, f: FixtureDatabas
     lemma_chain_no_eviction(o.cache(), t, h.tr[j].cache, scan_universe());
     lemma_paths_contains(t, i);
     assert(t[i] == h.tr[i]);
-    assert(fresh_step_ok(h.tr[j]));
+    assert(disc_step_ok(h.tr[j]));
 }
 
 // ---- canaries (must FAIL)
